@@ -48,23 +48,24 @@ func init() {
 const loopTick = 12 * time.Millisecond
 
 type loopObj struct {
-	kind   string
-	file   sonic.File           // fifo, regular
-	conn   sonic.Conn           // tcp
-	adp    *sonic.AsyncAdapter  // adapter
-	nc     net.Conn             // adapter's net.Conn
-	timer  *sonic.Timer
-	ln     sonic.Listener
-	pc     sonic.PacketConn
-	mp     *multicast.UDPPeer   // mpeer
-	sab    []int                // descriptors held by a sabotage
-	peer   net.Conn             // tcp/adapter peer
-	peerFd int                  // fifo peer end (-1 if closed)
-	peerPC *net.UDPConn         // packet peer
-	path   string
-	closed bool
-	rxOff  int // bytes the peer has written so far (position of the next byte)
-	accepted []sonic.Conn
+	kind      string
+	file      sonic.File          // fifo, regular
+	conn      sonic.Conn          // tcp
+	adp       *sonic.AsyncAdapter // adapter
+	nc        net.Conn            // adapter's net.Conn
+	timer     *sonic.Timer
+	ln        sonic.Listener
+	pc        sonic.PacketConn
+	mp        *multicast.UDPPeer // mpeer
+	sab       []int              // descriptors held by a sabotage
+	packets   bool               // FIFO in packet mode
+	peer      net.Conn           // tcp/adapter peer
+	peerFd    int                // fifo peer end (-1 if closed)
+	peerPC    *net.UDPConn       // packet peer
+	path      string
+	closed    bool
+	rxOff     int // bytes the peer has written so far (position of the next byte)
+	accepted  []sonic.Conn
 	peerConns []net.Conn
 }
 
@@ -689,7 +690,13 @@ func (lw *loopWorld) peer(f []string) {
 		}
 		var err error
 		if o.kind == "fifo" {
-			if o.peerFd >= 0 {
+			if o.peerFd >= 0 && o.packets {
+				// packet mode: packets of at most 4 bytes (a read with a smaller buffer would discard the rest of a packet;
+				// the scenarios read with 8 bytes or more)
+				for off := 0; off < len(b) && err == nil; off += 4 {
+					_, err = syscall.Write(o.peerFd, b[off:min(off+4, len(b))])
+				}
+			} else if o.peerFd >= 0 {
 				_, err = syscall.Write(o.peerFd, b)
 			} else {
 				err = io.ErrClosedPipe
@@ -720,6 +727,7 @@ func (lw *loopWorld) peer(f []string) {
 		} else {
 			// a packet occupies a whole pipe buffer (16 by default): room for 256 packets
 			_, _ = unix.FcntlInt(uintptr(o.peerFd), unix.F_SETPIPE_SZ, 1<<20)
+			o.packets = true
 		}
 	case "close":
 		if o.kind == "fifo" || o.kind == "fifow" {
@@ -826,7 +834,6 @@ func (lw *loopWorld) peer(f []string) {
 	}
 	lw.ev("ret %s", res)
 }
-
 
 // finish: make every in-flight operation completable, poll generously, then report what is stuck although
 // its descriptor is ready per poll(2) (an independent readiness oracle).
@@ -1047,7 +1054,7 @@ func (lw *loopWorld) newObj(k int, kind string) string {
 		}
 		o.timer = t
 	case "listener":
-		l, err := sonic.Listen(lw.ioc, "tcp", "127.0.0.1:0", )
+		l, err := sonic.Listen(lw.ioc, "tcp", "127.0.0.1:0")
 		if err != nil {
 			return "fail-listen"
 		}
